@@ -1454,3 +1454,84 @@ func TestExecutionScaling(t *testing.T) {
 	P.AddDistinct(n)
 	P.SetExtra("execution_scaling_checks", n)
 }
+
+// TestHostileSignatures: a schema-valid payload of an issuer of every key type under a signature that is NOT one: byte
+// strings of every length 0..300 shaped like DER (short-form, long-form 0x81 / 0x82 and indefinite lengths, integer
+// lengths that run to, one short of and past the end), constant bytes, a valid signature with one length byte changed.
+// All of it sits behind a parseable issuer and a matching header, where signature-format checks live. Decoders return
+// an error; they do not panic.
+func TestHostileSignatures(t *testing.T) {
+	algs := []keys.Alg{keys.P256, keys.P384, keys.P521, keys.Secp256k1, keys.Ed25519, keys.RSA}
+	n := 0
+	for _, a := range algs {
+		d := tok.Tok{Dlg: &tok.Dlg{Iss: tok.KeyRef{Alg: a, Idx: 0}, Aud: tok.KeyRef{Alg: keys.Ed25519, Idx: 1}, Sub: "iss", Cmd: "/foo", Nonce: bytes.Repeat([]byte{1}, 12)}}
+		tk, priv, err := tok.Build(d)
+		if err != nil {
+			t.Fatalf("INCONCLUSIVE %v", err)
+		}
+		sealed, _, err := tk.ToSealed(priv)
+		if err != nil {
+			t.Fatalf("INCONCLUSIVE %v", err)
+		}
+		root, _, err := cbor.Parse(sealed)
+		if err != nil || len(root.Items) != 2 {
+			t.Fatalf("INCONCLUSIVE cannot parse an honest token")
+		}
+		good := append([]byte{}, root.Items[0].Data...)
+		try := func(sig []byte) {
+			root.Items[0] = cbor.BytesItem(sig)
+			b := root.Bytes()
+			for _, tg := range []string{"token.FromSealed", "delegation.FromSealed", "token.FromSealedReader"} {
+				mutatedProp.One(t, Case{Target: tg, Fam: "hostile-signature-" + string(a), Bytes: b})
+				n++
+			}
+		}
+		step := 1
+		if !h.Thorough() {
+			step = 2
+		}
+		for ln := 0; ln <= 300; ln += step {
+			fill := func(k int) []byte {
+				if k < 0 {
+					k = 0
+				}
+				return bytes.Repeat([]byte{0x01}, k)
+			}
+			var shapes [][]byte
+			shapes = append(shapes, fill(ln), bytes.Repeat([]byte{0xff}, ln), make([]byte, ln))
+			if ln >= 6 {
+				shapes = append(shapes,
+					append([]byte{0x30, byte(ln - 2), 0x02, byte(ln - 4)}, fill(ln-4)...),                    // short form, R runs to the end
+					append([]byte{0x30, byte(ln - 2), 0x02, byte(ln - 5)}, fill(ln-4)...),                    // R leaves one byte
+					append([]byte{0x30, byte(ln - 2), 0x02, byte(ln - 3)}, fill(ln-4)...),                    // R runs past the end
+					append([]byte{0x30, 0x81, byte(ln - 3), 0x02, byte(ln - 5)}, fill(ln-5)...),              // long form, R runs to the end
+					append([]byte{0x30, 0x81, byte(ln - 3), 0x02, byte(ln - 6)}, fill(ln-5)...),              // long form, R leaves one byte
+					append([]byte{0x30, 0x81, byte(ln - 3), 0x02, byte(ln - 4)}, fill(ln-5)...),              // long form, R past the end
+					append([]byte{0x30, 0x82, byte((ln - 4) >> 8), byte(ln - 4), 0x02, byte(ln - 6)}, fill(ln-6)...),
+					append([]byte{0x30, 0x80, 0x02, byte(ln - 4)}, fill(ln-4)...),                            // indefinite length
+					append([]byte{0x30, 0x81, byte(ln - 3), 0x02, 0x81, byte(ln - 6)}, fill(ln-6)...),        // long-form integer length
+					append([]byte{0x30, byte(ln - 2), 0x02, 0x01, 0x01, 0x02, byte(ln - 7)}, fill(ln-7)...), // S runs to the end
+					append([]byte{0x30, byte(ln - 2), 0x02, 0x01, 0x01, 0x02, byte(ln - 6)}, fill(ln-7)...), // S past the end
+				)
+			}
+			for _, s := range shapes {
+				try(s)
+			}
+		}
+		// the honest signature with each of its first 8 bytes changed to a few values, truncated, extended
+		for i := 0; i < 8 && i < len(good); i++ {
+			for _, v := range []byte{0x00, 0x01, 0x7f, 0x80, 0x81, 0x82, 0xff, good[i] + 1, good[i] - 1} {
+				s := append([]byte{}, good...)
+				s[i] = v
+				try(s)
+			}
+		}
+		for _, k := range []int{1, 2, 3, len(good) / 2, len(good) - 1} {
+			if k > 0 && k < len(good) {
+				try(good[:k])
+				try(good[k:])
+			}
+		}
+	}
+	P.Sample(map[string]any{"hostile_signature_cases": n})
+}
